@@ -261,8 +261,10 @@ def resolve_attr_path(node):
     while isinstance(x, ast.Attribute):
         attr_path.append(x.attr)
         x = x.value
-    if isinstance(x, ast.Name):
-        attr_path.append(x.id)
+    if not isinstance(x, ast.Name):
+        # The call target is not a plain (dotted) name, e.g. a method on a call result or on a literal
+        return None
+    attr_path.append(x.id)
     return ".".join(reversed(attr_path))
 
 
@@ -542,6 +544,9 @@ class RecordContextMatcher:
         # Add whitelisted functions to global dict
         self.data.update({func.__name__: func for func in FUNCTION_WHITELIST})
 
+        # Names that may be called, fixed before any generator variable is added to the namespace
+        self.callables = {name for name, value in self.data.items() if callable(value)}
+
         self.data["r"] = rec
         self.rec = rec
 
@@ -631,7 +636,7 @@ class RecordContextMatcher:
                 raise InvalidOperation("Error, only ast.Attribute or ast.Name are expected")
 
             func_name = resolve_attr_path(node)
-            if not (callable(self.data.get(func_name)) or func_name in WHITELIST):
+            if not (func_name in self.callables or func_name in WHITELIST):
                 raise InvalidOperation(
                     "Call '{}' not allowed. No calls other then whitelisted 'global' calls allowed!".format(func_name)
                 )
@@ -687,7 +692,7 @@ class RecordContextMatcher:
 
                 """
                 for gen in node.generators:
-                    if gen.target.id in self.data:
+                    if gen.target.id in self.data or gen.target.id in WHITELIST_TREE:
                         raise InvalidOperation(
                             "Generator variable '{}' overwrites existing variable!".format(gen.target.id)
                         )
